@@ -330,8 +330,10 @@ def _finite(v):
     return v
 
 
-def ref_eval(e, env, seed, memo=None):
-    """Value of descriptor ``e`` at binding ``env`` (name -> ndarray).  Raises Undefined."""
+def ref_eval(e, env, seed, memo=None, real=np.float64):
+    """Value of descriptor ``e`` at binding ``env`` (name -> ndarray).  Raises Undefined.
+
+    ``real`` is the floating type of the constants (the inputs come as given)."""
     if memo is None:
         memo = {}
     if e in memo:
@@ -341,13 +343,13 @@ def ref_eval(e, env, seed, memo=None):
         if t in ("in", "ii"):
             v = np.asarray(env[e[1]])
         elif t == "num":
-            v = np.float64(e[1])
+            v = real(e[1])
         elif t == "numi":
             v = np.int64(e[1])
         elif t == "ten":
-            v = const_value(e, seed)
+            v = const_value(e, seed).astype(real)
         elif t == "u":
-            x = ref_eval(e[3], env, seed, memo)
+            x = ref_eval(e[3], env, seed, memo, real)
             op, p = e[1], e[2]
             if op in _UN:
                 if op == "log" and np.any(x <= 0):
@@ -364,8 +366,8 @@ def ref_eval(e, env, seed, memo=None):
             else:
                 raise IllTyped(op)
         elif t == "b":
-            x = ref_eval(e[2], env, seed, memo)
-            y = ref_eval(e[3], env, seed, memo)
+            x = ref_eval(e[2], env, seed, memo, real)
+            y = ref_eval(e[3], env, seed, memo, real)
             op = e[1]
             if isinstance(op, tuple):
                 v = x[(slice(None),) * op[1] + (int(y),)]
@@ -376,11 +378,11 @@ def ref_eval(e, env, seed, memo=None):
                     raise Undefined("power of a non-positive base")
                 v = _BIN[op](x, y)
         elif t == "tup":
-            v = tuple(ref_eval(c, env, seed, memo) for c in e[1])
+            v = tuple(ref_eval(c, env, seed, memo, real) for c in e[1])
             memo[e] = v
             return v
         elif t == "con":
-            vals = [ref_eval(c, env, seed, memo) for c in e[2]]
+            vals = [ref_eval(c, env, seed, memo, real) for c in e[2]]
             v = functools.reduce(_BIN[e[1]], vals)
         else:
             raise IllTyped(t)
@@ -391,6 +393,8 @@ def ref_eval(e, env, seed, memo=None):
 
 def close(a, b, rtol=1e-7, atol=1e-9):
     """|a-b| <= atol + rtol|b| element-wise, equal shapes (b = reference, finite)."""
+    if isinstance(a, np.ndarray) and a.dtype == np.longdouble:
+        a = a.astype(np.float64)
     if isinstance(b, tuple):
         return isinstance(a, tuple) and len(a) == len(b) and all(close(x, y, rtol, atol) for x, y in zip(a, b))
     if isinstance(a, tuple):
@@ -407,13 +411,24 @@ def close(a, b, rtol=1e-7, atol=1e-9):
     return bool(np.all(np.abs(a - b) <= atol + rtol * np.abs(b)))
 
 
+_EXTENDED = np.finfo(np.longdouble).eps < 1e-18
+
+
 def well_conditioned(e, env, seed, ref):
-    """The reference value moves by less than a tenth of the tolerance when every real input moves by 1e-13
-    (relative): re-association of a commutative contraction (the only freedom the library has) cannot then be
-    mistaken for a wrong value."""
-    env2 = {k: (v * (1.0 + 1e-13) if v.dtype.kind == "f" else v) for k, v in env.items()}
+    """Is the float64 reference value insensitive to the rounding of its intermediates?
+
+    The library may round differently from the reference (a commutative contraction may be re-associated, an op may
+    be implemented by another formula).  The reference is therefore re-evaluated in extended precision (80-bit
+    long double; where the platform has none, on inputs moved by 1e-13 relative) and the binding is used only if
+    the two evaluations agree to a tenth of the comparison tolerance."""
+    if _EXTENDED:
+        env2 = {k: (v.astype(np.longdouble) if v.dtype.kind == "f" else v) for k, v in env.items()}
+        kw = {"real": np.longdouble}
+    else:
+        env2 = {k: (v * (1.0 + 1e-13) if v.dtype.kind == "f" else v) for k, v in env.items()}
+        kw = {}
     try:
-        ref2 = ref_eval(e, env2, seed)
+        ref2 = ref_eval(e, env2, seed, **kw)
     except Undefined:
         return False
     return close(ref2, ref, rtol=1e-8, atol=1e-10)
@@ -671,3 +686,10 @@ def key_op_shape(e):
 
 def key_kind_shape(e):
     return (e[0], ty(e))
+
+
+def key_struct(e):
+    """(root op, heads of the operands, which operands are identical, input names, output shape)."""
+    cs = children(e)
+    same = tuple(i for i in range(len(cs)) for j in range(i) if cs[i] == cs[j])
+    return (head(e), tuple(head(c) for c in cs), same, tuple(sorted(s[1] for s in inputs_of(e))), ty(e))
